@@ -84,11 +84,11 @@ def _c07_parts(tier):
     # second part: SYSTEMATIC bounded pre-emption sweep. Run index i -> task set i // K, schedule number i % K of that set's
     # bounded space (depth 1 completely, then depth 2 per focus group, smallest spaces first; see c07.sweep_pick)
     sw = c07.default_params(tier)
-    sw.update({"sweep": {"per_set": 64 if q else 2048}, "max_tasks": 2, "size_hi": 8,
-               "strata": ["extends", "provide", "lru", "media", "clean", "mixed", "view"]})
+    sw.update({"sweep": {"per_set": 96 if q else 2048}, "max_tasks": 2, "size_hi": 8,
+               "strata": ["extends", "provide", "lru", "media", "clean", "mixed", "view", "clean"]})
     return [{"engine": "c07", "params": c07.default_params(tier), "runs": 5_000 if q else 200_000,
              "per_fork": 1, "wall_s": 120 if q else 1800, "run_timeout_s": 240},
-            {"engine": "c07", "params": sw, "runs": 56 * 64 if q else 80 * 2048,
+            {"engine": "c07", "params": sw, "runs": 40 * 96 if q else 80 * 2048,
              "per_fork": 1, "wall_s": 90 if q else 1500, "run_timeout_s": 240}]
 
 
